@@ -265,7 +265,8 @@ PROPS['C19'] = {
     'proved': 'for key_pair_new, key_pair_public, key_pair_serialize, key_pair_deserialize, public_key_deserialize, biscuit_serialized_size, biscuit_serialize, biscuit_sealed_size, '
               'biscuit_serialize_sealed, biscuit_block_count: every copy_from_slice into a caller buffer has equal source and destination lengths, the number of bytes written is the number announced by the '
               'matching size query (sealed: the size of the sealed token), seeds of length != 32 are refused, a null handle returns through the error channel without being dereferenced, and no unwrap / index / '
-              'arithmetic side condition can fail.',
+              'arithmetic side condition can fail. Builder handles (BiscuitBuilder, BlockBuilder, AuthorizerBuilder): the handle holds its Rust builder after EVERY call of set_context, set_root_key_id, add_fact, add_rule, add_check, add_policy - '
+              'including calls that refuse their argument - so the unwrap / expect of the next call cannot fail; biscuit_builder, create_block and authorizer_builder return filled handles; authorizer_builder_build[_unauthenticated] return NULL for a NULL builder.',
     'not_covered': ['"returns the same result as the Rust operation" for authorization outcomes and error details (needs the engine)', 'the builder / authorizer entry points working on C strings (CStr, to_str: str reasoning)',
                     'validity of the caller-supplied pointers themselves (the property assumes valid handles and buffers of the reported size; rewrite R9)'],
     'assumptions': ['Rust API contracts in specs/capi.rs: PrivateKey::to_bytes is 32 bytes, PublicKey::to_bytes is 32 (ed25519) / 33 (secp256r1) bytes, Biscuit::to_vec().len() == serialized_size() for the same token '
@@ -302,6 +303,9 @@ WITNESS = {
     r'Authorizer::authorize::arith': 'tools/replay.sh snapshot_iteration_underflow',
     r'World::run_with_limits::arith\[self.iterations': 'tools/replay.sh snapshot_iteration_overflow',
     r'Expression::evaluate::call-pre\(datalog::expression::Binary::evaluate_with_closure::requires.no_shadow': 'tools/replay.sh closure_shadowing',
+    r'biscuit-capi::lib::(BiscuitBuilder|BlockBuilder)::add_\w+::ensures\.handle': 'tools/replay.sh capi_builder_after_error',
+    r'biscuit-capi::lib::AuthorizerBuilder::add_\w+::ensures\.handle': 'tools/replay.sh capi_authorizer_builder_after_error',
+    r'biscuit-capi::lib::authorizer_builder_build(_unauthenticated)?::': 'tools/replay.sh capi_authorizer_builder_build_null',
     r'biscuit-capi::lib::public_key_serialize::call-pre': 'tools/replay.sh capi_public_key_serialize_secp256r1',
     r'biscuit-capi::lib::biscuit_(serialize_sealed|sealed_size)::': 'tools/replay.sh capi_serialize_sealed',
     r'datalog::contains_v3_3_(term|op)::': 'tools/replay.sh schema_version_features',
